@@ -23,6 +23,17 @@ CHECKS = {
         ),
         design_ref="DESIGN.md §4 C18",
     ),
+    "C19": dict(
+        technique="Lean 4 proof (induction over block lists, polymorphic in the sample type: no algebraic law) + translator-generated preset constants + exhaustive correspondence over all block compositions against the loaded .so and the rewritten .pyx source",
+        text=(
+            "Machine-checked: IIR (generic and ChickenSys) block-split invariance, output count and reset for every block list (C19_iir_split/_count/_reset), with the filter polymorphic in the "
+            "sample type so the result holds for IEEE doubles; saturation of both int16 presets (C19_csiir_sat*, C19_csfir_sat). FIR: the repaired filter meets the full property for every block list "
+            "(C19_fir_split_fixed/_count_fixed); the code as written is proved to meet it only when every block holds >= N-1 >= 1 samples (C19_fir_split_partial) and a kernel-checked counterexample "
+            "(C19_fir_counterexample) shows the full statement is false of it — replayed on the implementation and recorded as known findings KF-C19-* (Cython is not available, so fir.pyx cannot be repaired effectively). "
+            "Tie: model vs the loaded extension modules AND vs the .pyx sources executed through a rewriter, exhaustively over all compositions of signals up to length 7 (quick) / 10 (thorough); preset constants regenerated and proved equal to the model's."
+        ),
+        design_ref="DESIGN.md §4 C19",
+    ),
 }
 
 NOT_YET = "check under construction in this round (model/theorems not yet committed); see DESIGN.md §4 for the planned proof"
